@@ -79,16 +79,34 @@ Definition opt_ok {A} (f : A -> bool) (o : option A) : bool := match o with Some
 Definition task_ok (clock : Z) (t : task) : bool :=
   single_line (t_name t) && date_ok (t_start t) && date_ok (t_end t)
   && opt_ok single_line (t_section t)
-  && opt_ok num_ok (t_est t) && opt_ok num_ok (t_spent t)
+  && match t_est t with Some e => num_ok e | None => false end     (* scheduled: the estimate is a number *)
+  && opt_ok num_ok (t_spent t)
   && match progress_kind clock t with
      | ProgFloat => numtext_ok (t_prog_txt t) && num_in_unit (t_prog_txt t)
      | _ => true
      end
-  && opt_ok (forallb (fun kv => single_line (fst kv) && single_line (snd kv))) (t_net_style t).
+  && opt_ok (forallb (fun kv => single_line (fst kv) && single_line (snd kv))) (t_net_style t)
+  && forallb (fun p => single_line (snd p)) (t_preds t).            (* the names of the predecessors as written *)
 
 Definition cfg_ok (c : gcfg) : bool := opt_ok plain_cfg_text (g_title c) && opt_ok plain_cfg_text (g_tick c).
 
 Definition wbs_ok (clock : Z) (w : wbs) : bool := forallb (task_ok clock) (tasks_of w).
+
+(* ---- changing one task's name ------------------------------------------------------------------ *)
+(* the task with id i gets the name nm, in its own record and where its successors mention it *)
+Definition rename_task (i : N) (nm : text) (t : task) : task :=
+  {| t_id := t_id t; t_name := if (t_id t =? i)%N then nm else t_name t; t_start := t_start t; t_end := t_end t;
+     t_ms := t_ms t; t_resource := t_resource t; t_est := t_est t; t_spent := t_spent t; t_min_start := t_min_start t;
+     t_preds := map (fun p => if (fst p =? i)%N then (fst p, nm) else p) (t_preds t);
+     t_section := t_section t; t_open := t_open t; t_bar_key := t_bar_key t; t_net_style := t_net_style t;
+     t_extra := t_extra t; t_prog_txt := t_prog_txt t |}.
+
+Definition rename (i : N) (nm : text) (w : wbs) : wbs := map (fun lt => (fst lt, rename_task i nm (snd lt))) w.
+
+(* the same change on an entry of the DHTMLX data *)
+Definition rename_entry (i : N) (nm : text) (e : jentry) : jentry :=
+  {| je_id := je_id e; je_name := if (je_id e =? i)%N then nm else je_name e; je_milestone := je_milestone e;
+     je_start := je_start e; je_end := je_end e; je_parent := je_parent e; je_progress := je_progress e |}.
 
 (* ---- decidable equality of entries (for the oracle) ------------------------------------------- *)
 Definition mf_eqb (a b : N * N * N * N * N) : bool :=
